@@ -82,7 +82,7 @@ fn strategy(tier: Tier) -> BoxedStrategy<Case> {
                         conns: vec![ConnPlan { from: 0, to: 1, start_ms: 0, key, a_w, a_r: vec![ROp::Read { n: back, buf: 65536 }], b_w: if back > 0 { vec![WOp::Write { n: back, chunk: 1 << 20 }, WOp::Flush] } else { vec![] }, b_r: vec![ROp::Read { n: total, buf: 65536 }] }],
                         net,
                         events: vec![],
-                        deadline_ms: 3_000_000,
+                        deadline_ms: 20_000_000,
                         linger_ms: 0,
                     };
                     Case { sc, asymmetric, no_guard: false, trickle: is_trickle }
